@@ -1,0 +1,439 @@
+//go:build verif
+
+// Verification hooks (build tag verif). Add-only: a tracer for the critical sections of
+// txObjectMap and for the steps of wash, a pool whose housekeeping is driven by the caller,
+// and a read-only snapshot of the accounting. Nothing here is compiled into a normal build;
+// the call sites in tx_object_map.go / tx_pool.go resolve to the no-ops of verif_hooks_off.go.
+
+package txpool
+
+import (
+	"context"
+	"math/big"
+	"sort"
+	"sync"
+	"sync/atomic"
+	"time"
+
+	"github.com/vechain/thor/v2/chain"
+	"github.com/vechain/thor/v2/state"
+	"github.com/vechain/thor/v2/thor"
+	"github.com/vechain/thor/v2/tx"
+)
+
+// VerifEvent is handed to the tracer at every hook site.
+//
+// Kinds emitted while txObjectMap.lock is write-held, after the state change (Locked = true):
+//
+//	add, add.dup, add.quota, add.dquota, add.payer, remove, remove.miss,
+//	promote, promote.miss, promote.noop, fill, fill.dup
+//
+// Kinds emitted while the lock is read-held: snapshot (ToTxObjects), costof (PendingCostOf).
+// Kinds emitted with no lock held (a blocking tracer may park the caller there):
+//
+//	pre.add, pre.remove, pre.promote, pre.fill, pre.costof        just before the lock is taken
+//	wash.begin, eval.begin, eval.blocked, eval.outlived, eval.drop, eval.done,
+//	wash.limit, wash.unpayable, wash.evict, wash.error, pre.publish, publish, wash.end, tick
+type VerifEvent struct {
+	Seq    uint64 // pool-wide sequence number; for Locked events it is taken under the lock
+	Kind   string
+	Locked bool
+
+	Obj        uint64 // identity of the *TxObject (a re-added tx is a new object), 0 = none
+	Tx         *tx.Transaction
+	Hash       thor.Bytes32
+	ID         thor.Bytes32
+	Origin     thor.Address
+	Delegator  *thor.Address
+	Payer      *thor.Address // nil while no pricing is published
+	Cost       *big.Int      // nil while no pricing is published
+	Prio       *big.Int      // priority gas price, nil while no pricing is published
+	Executable bool          // the object's accounting gate at the time of the event
+	Source     string
+	TimeAdded  int64
+
+	// post-state of the accounting touched by the event (Locked events)
+	Len            int
+	QuotaOrigin    int
+	QuotaDelegator int
+	CostPayer      *big.Int // pending cost of Payer, nil = no entry
+
+	Account thor.Address // costof: whose pending cost was read; CostPayer holds the value read
+	Objs    []uint64     // snapshot / wash.begin: objects in evaluation order; wash.limit / publish: executables in order
+	Removes []uint64     // wash.limit: removal list so far
+	Prios   []*big.Int   // publish: priority gas price of each published object, as wash sorted them
+
+	HeadID      thor.Bytes32 // wash.begin, tick
+	HeadNum     uint32
+	HeadChanged bool
+	Ran         bool           // tick: whether this tick washed
+	Forced      bool           // tick: the triggers were skipped (VerifWashAt)
+	Hashes      []thor.Bytes32 // publish: hashes of the published txs, in order
+	Result      bool           // eval.done: executable
+	Err         string         // eval.drop, wash.error, wash.unpayable, wash.end
+}
+
+type verifPoolState struct {
+	tracer  atomic.Pointer[func(VerifEvent)]
+	seq     atomic.Uint64
+	reorder atomic.Pointer[func(objs []uint64) []int]
+	head    *chain.BlockSummary // the housekeeping loop's local headSummary
+	sorted  []*TxObject         // the executables as wash sorted them (wash is single-threaded)
+}
+
+var (
+	verifStates  sync.Map // *txObjectMap -> *verifPoolState
+	verifObjIDs  sync.Map // *TxObject -> uint64
+	verifObjNext atomic.Uint64
+)
+
+func verifStateOf(m *txObjectMap) *verifPoolState {
+	if v, ok := verifStates.Load(m); ok {
+		return v.(*verifPoolState)
+	}
+	return nil
+}
+
+// VerifObjID returns the identity number of a pool object.
+func VerifObjID(o *TxObject) uint64 {
+	if o == nil {
+		return 0
+	}
+	if v, ok := verifObjIDs.Load(o); ok {
+		return v.(uint64)
+	}
+	v, _ := verifObjIDs.LoadOrStore(o, verifObjNext.Add(1))
+	return v.(uint64)
+}
+
+func verifIDs(objs []*TxObject) []uint64 {
+	out := make([]uint64, len(objs))
+	for i, o := range objs {
+		out[i] = VerifObjID(o)
+	}
+	return out
+}
+
+func (st *verifPoolState) emit(ev VerifEvent) {
+	f := st.tracer.Load()
+	if f == nil {
+		return
+	}
+	ev.Seq = st.seq.Add(1)
+	(*f)(ev)
+}
+
+func verifDescribe(ev *VerifEvent, o *TxObject) {
+	if o == nil {
+		return
+	}
+	ev.Obj = VerifObjID(o)
+	ev.Tx = o.Transaction
+	ev.Hash = o.Hash()
+	ev.ID = o.ID()
+	ev.Origin = o.Origin()
+	ev.Delegator = o.Delegator()
+	if p := o.pricing.Load(); p != nil {
+		ev.Payer, ev.Cost, ev.Prio = p.payer, p.cost, p.priorityGasPrice
+	}
+	ev.Executable = o.executable
+	ev.Source = string(o.source)
+	ev.TimeAdded = o.timeAdded
+}
+
+// verifTrace is called with m.lock write-held for every kind except the pre.* ones.
+func verifTrace(m *txObjectMap, kind string, o *TxObject) {
+	st := verifStateOf(m)
+	if st == nil || st.tracer.Load() == nil {
+		return
+	}
+	ev := VerifEvent{Kind: kind}
+	verifDescribe(&ev, o)
+	if len(kind) < 4 || kind[:4] != "pre." {
+		ev.Locked = true
+		ev.Len = len(m.mapByHash)
+		if o != nil {
+			ev.QuotaOrigin = m.quota[o.Origin()]
+			if d := o.Delegator(); d != nil {
+				ev.QuotaDelegator = m.quota[*d]
+			}
+			if ev.Payer != nil {
+				if c := m.cost[*ev.Payer]; c != nil {
+					ev.CostPayer = new(big.Int).Set(c)
+				}
+			}
+		}
+	}
+	st.emit(ev)
+}
+
+func verifTraceHash(m *txObjectMap, kind string, h thor.Bytes32) {
+	st := verifStateOf(m)
+	if st == nil || st.tracer.Load() == nil {
+		return
+	}
+	ev := VerifEvent{Kind: kind, Hash: h}
+	if kind != "pre.remove" {
+		ev.Locked = true
+		ev.Len = len(m.mapByHash)
+	}
+	st.emit(ev)
+}
+
+// verifTraceCost is called with m.lock read-held.
+func verifTraceCost(m *txObjectMap, payer thor.Address) {
+	st := verifStateOf(m)
+	if st == nil || st.tracer.Load() == nil {
+		return
+	}
+	ev := VerifEvent{Kind: "costof", Locked: true, Account: payer, Len: len(m.mapByHash)}
+	if c := m.cost[payer]; c != nil {
+		ev.CostPayer = new(big.Int).Set(c)
+	}
+	st.emit(ev)
+}
+
+// verifTraceSnapshot is called with m.lock read-held.
+func verifTraceSnapshot(m *txObjectMap, objs []*TxObject) {
+	st := verifStateOf(m)
+	if st == nil || st.tracer.Load() == nil {
+		return
+	}
+	st.emit(VerifEvent{Kind: "snapshot", Locked: true, Objs: verifIDs(objs), Len: len(m.mapByHash)})
+}
+
+// verifWashBegin lets the harness fix the (otherwise arbitrary, Go-map) evaluation order of the
+// snapshot and marks the start of the lock-free part of wash.
+func verifWashBegin(p *TxPool, head *chain.BlockSummary, changed bool, all []*TxObject) {
+	st := verifStateOf(p.all)
+	if st == nil {
+		return
+	}
+	if r := st.reorder.Load(); r != nil {
+		if perm := (*r)(verifIDs(all)); len(perm) == len(all) {
+			cp := append([]*TxObject(nil), all...)
+			for i, k := range perm {
+				all[i] = cp[k]
+			}
+		}
+	}
+	st.emit(VerifEvent{Kind: "wash.begin", Objs: verifIDs(all), HeadID: head.Header.ID(), HeadNum: head.Header.Number(),
+		HeadChanged: changed})
+}
+
+func verifWashMark(p *TxPool, kind string, o *TxObject, err error) {
+	st := verifStateOf(p.all)
+	if st == nil || st.tracer.Load() == nil {
+		return
+	}
+	ev := VerifEvent{Kind: kind}
+	verifDescribe(&ev, o)
+	if err != nil {
+		ev.Err = err.Error()
+	}
+	st.emit(ev)
+}
+
+func verifWashEvaluated(p *TxPool, o *TxObject, executable bool) {
+	st := verifStateOf(p.all)
+	if st == nil || st.tracer.Load() == nil {
+		return
+	}
+	ev := VerifEvent{Kind: "eval.done", Result: executable}
+	verifDescribe(&ev, o)
+	st.emit(ev)
+}
+
+func verifWashLimit(p *TxPool, executables []*TxObject, toRemove []*TxObject) {
+	st := verifStateOf(p.all)
+	if st == nil || st.tracer.Load() == nil {
+		return
+	}
+	st.sorted = append([]*TxObject(nil), executables...)
+	st.emit(VerifEvent{Kind: "wash.limit", Objs: verifIDs(executables), Removes: verifIDs(toRemove)})
+}
+
+// VerifNewManual constructs a pool exactly as New does, but starts no goroutine: the caller is the
+// housekeeping loop (VerifWash) and therefore the only caller of wash. A blocklist file, if given, is
+// loaded synchronously; nothing is fetched.
+func VerifNewManual(repo *chain.Repository, stater *state.Stater, options Options, forkConfig *thor.ForkConfig) *TxPool {
+	ctx, cancel := context.WithCancel(context.Background())
+	pool := &TxPool{
+		options:      options,
+		repo:         repo,
+		stater:       stater,
+		all:          newTxObjectMap(),
+		ctx:          ctx,
+		cancel:       cancel,
+		forkConfig:   forkConfig,
+		baseFeeCache: newBaseFeeCache(forkConfig),
+	}
+	if options.BlocklistCacheFilePath != "" {
+		_ = pool.blocklist.Load(options.BlocklistCacheFilePath)
+	}
+	// housekeeping() reads the head once before its first tick
+	verifStates.Store(pool.all, &verifPoolState{head: repo.BestBlockSummary()})
+	return pool
+}
+
+// VerifRelease drops the hook state of a pool created with VerifNewManual.
+func (p *TxPool) VerifRelease() { verifStates.Delete(p.all) }
+
+// VerifSetTracer installs the tracer (nil removes it). The tracer runs on the goroutine that hit the hook
+// site; for events with Locked = true the map lock is held, so it must not block there. Blocking at an
+// unlocked site parks that goroutine, which makes the tracer a scheduler gate.
+func (p *TxPool) VerifSetTracer(f func(ev VerifEvent)) {
+	st := verifStateOf(p.all)
+	if f == nil {
+		st.tracer.Store(nil)
+		return
+	}
+	st.tracer.Store(&f)
+}
+
+// VerifSetWashOrder installs a function that chooses the evaluation order of a wash snapshot: given the
+// object ids of the snapshot it returns a permutation (indices into its argument). nil restores map order.
+func (p *TxPool) VerifSetWashOrder(f func(objs []uint64) []int) {
+	st := verifStateOf(p.all)
+	if f == nil {
+		st.reorder.Store(nil)
+		return
+	}
+	st.reorder.Store(&f)
+}
+
+// VerifSeq draws the next number of the pool-wide event sequence (for events the harness itself logs).
+func (p *TxPool) VerifSeq() uint64 { return verifStateOf(p.all).seq.Add(1) }
+
+// VerifWash runs the body of one housekeeping tick: same head tracking, same sync test, same wash triggers,
+// wash, and publication of the executables. ran tells whether this tick washed.
+func (p *TxPool) VerifWash() (ran bool, removed int, err error) {
+	st := verifStateOf(p.all)
+	var headBlockChanged bool
+	if newHeadSummary := p.repo.BestBlockSummary(); newHeadSummary.Header.ID() != st.head.Header.ID() {
+		st.head = newHeadSummary
+		headBlockChanged = true
+	}
+	return p.verifTick(st, st.head, headBlockChanged, false)
+}
+
+// VerifWashAt is VerifWash with the head summary supplied by the caller and the triggers skipped
+// (used to reach wash's error path with a summary whose state is unavailable).
+func (p *TxPool) VerifWashAt(headSummary *chain.BlockSummary, headBlockChanged bool) (ran bool, removed int, err error) {
+	return p.verifTick(verifStateOf(p.all), headSummary, headBlockChanged, true)
+}
+
+func (p *TxPool) verifTick(st *verifPoolState, headSummary *chain.BlockSummary, headBlockChanged bool, force bool) (bool, int, error) {
+	tick := VerifEvent{Kind: "tick", HeadID: headSummary.Header.ID(), HeadNum: headSummary.Header.Number(), HeadChanged: headBlockChanged,
+		Forced: force}
+	if !isChainSynced(uint64(time.Now().Unix()), headSummary.Header.Timestamp()) {
+		// skip washing txs if not synced
+		st.emit(tick)
+		return false, 0, nil
+	}
+	poolLen := p.all.Len()
+	if force || headBlockChanged ||
+		poolLen > p.options.Limit ||
+		(poolLen < 200 && atomic.LoadUint32(&p.addedAfterWash) > 0) {
+		atomic.StoreUint32(&p.addedAfterWash, 0)
+		tick.Ran = true
+		tick.Len = poolLen
+		st.emit(tick)
+
+		executables, removed, err := p.wash(headSummary, headBlockChanged)
+		end := VerifEvent{Kind: "wash.end"}
+		if err != nil {
+			end.Err = err.Error()
+		} else {
+			verifWashMark(p, "pre.publish", nil, nil)
+			p.executables.Store(executables)
+			metricTxPoolExecutablesGauge().Set(int64(len(executables)))
+			metricTxPoolAllGauge().Set(int64(poolLen - removed))
+			pub := VerifEvent{Kind: "publish"}
+			// the objects wash sorted (not whatever object is pooled under that id by now)
+			k := 0
+			for _, t := range executables {
+				for k < len(st.sorted) && st.sorted[k].Transaction != t {
+					k++
+				}
+				var o *TxObject
+				if k < len(st.sorted) {
+					o = st.sorted[k]
+				}
+				pub.Objs = append(pub.Objs, VerifObjID(o))
+				pub.Hashes = append(pub.Hashes, t.Hash())
+				var prio *big.Int
+				if o != nil {
+					prio = o.priorityGasPrice()
+				}
+				pub.Prios = append(pub.Prios, prio)
+			}
+			st.sorted = nil
+			st.emit(pub)
+		}
+		st.emit(end)
+		return true, removed, err
+	}
+	tick.Len = poolLen
+	st.emit(tick)
+	return false, 0, nil
+}
+
+// VerifSetBlocked replaces the fetched blocklist (what a successful fetch does).
+func (p *TxPool) VerifSetBlocked(addrs []thor.Address) {
+	list := make(map[thor.Address]bool)
+	for _, a := range addrs {
+		list[a] = true
+	}
+	p.blocklist.lock.Lock()
+	p.blocklist.list = list
+	p.blocklist.lock.Unlock()
+}
+
+// VerifObj is one pooled object in a snapshot.
+type VerifObj struct {
+	Obj        uint64
+	Hash       thor.Bytes32
+	ID         thor.Bytes32
+	Origin     thor.Address
+	Delegator  *thor.Address
+	Payer      *thor.Address
+	Cost       *big.Int
+	Prio       *big.Int
+	Executable bool
+	Source     string
+	ByID       bool // mapByID[ID] is this very object
+}
+
+// VerifSnap is a consistent copy of the accounting (taken under the read lock).
+type VerifSnap struct {
+	Len   int
+	Quota map[thor.Address]int
+	Cost  map[thor.Address]string // decimal
+	Objs  []VerifObj              // sorted by Obj
+	IDs   int                     // len(mapByID)
+}
+
+// VerifSnapshot copies quota, pending cost and the per-object flags.
+func (p *TxPool) VerifSnapshot() VerifSnap {
+	m := p.all
+	m.lock.RLock()
+	defer m.lock.RUnlock()
+	s := VerifSnap{Len: len(m.mapByHash), Quota: map[thor.Address]int{}, Cost: map[thor.Address]string{}, IDs: len(m.mapByID)}
+	for a, q := range m.quota {
+		s.Quota[a] = q
+	}
+	for a, c := range m.cost {
+		s.Cost[a] = c.String()
+	}
+	for _, o := range m.mapByHash {
+		vo := VerifObj{Obj: VerifObjID(o), Hash: o.Hash(), ID: o.ID(), Origin: o.Origin(), Delegator: o.Delegator(),
+			Executable: o.executable, Source: string(o.source), ByID: m.mapByID[o.ID()] == o}
+		if pr := o.pricing.Load(); pr != nil {
+			vo.Payer, vo.Cost, vo.Prio = pr.payer, pr.cost, pr.priorityGasPrice
+		}
+		s.Objs = append(s.Objs, vo)
+	}
+	sort.Slice(s.Objs, func(i, j int) bool { return s.Objs[i].Obj < s.Objs[j].Obj })
+	return s
+}
